@@ -140,7 +140,7 @@ World.emit = _bounded_emit
 
 # ------------------------------------------------------------------------------------------------ encoder
 
-MERGEABLE_ALWAYS = {'unlock', 'wait', 'wait_timeout', 'notify_one', 'notify_all', 'q_push', 'q_pop', 'q_is_empty', 'q_len'}
+MERGEABLE_ALWAYS_UNUSED = {'unlock', 'wait', 'wait_timeout', 'notify_one', 'notify_all', 'q_push', 'q_pop', 'q_is_empty', 'q_len'}
 
 
 class Thread:
@@ -186,7 +186,7 @@ class Command:
 
 class Encoder:
     def __init__(self, threads, objects, K, cap=6, spurious=True, init_events=(), hooks=None, symmetry=(), chan_cap=3,
-                 time_bits=64):
+                 time_bits=64, free_queues=()):
         self.threads = threads
         self.objects = objects        # id -> descriptor
         self.K = K
@@ -196,6 +196,7 @@ class Encoder:
         self.hooks = hooks
         self.symmetry = symmetry
         self.init_events = init_events
+        self.free_queues = set(free_queues)      # queues whose initial contents are arbitrary (single-call contracts)
         self.cons = []
         self.S = []
         self.aux = []
@@ -361,7 +362,10 @@ class Encoder:
             if kd == 'mutex':
                 c.append(z3.Not(S['mx:' + oid]))
             elif kd == 'queue':
-                c.append(S['q:%s:len' % oid] == 0)
+                if oid in self.free_queues:
+                    c.append(z3.ULE(S['q:%s:len' % oid], self.cap - 1))
+                else:
+                    c.append(S['q:%s:len' % oid] == 0)
             elif kd == 'atomic':
                 c.append(S['at:' + oid] == d.get('init', bv(0)))
             elif kd == 'chan':
@@ -439,6 +443,39 @@ class Encoder:
                     S['q:%s:k%d' % (o, i)] = z3.If(ne, S['q:%s:k%d' % (o, i + 1)], S['q:%s:k%d' % (o, i)])
                     S['q:%s:p%d' % (o, i)] = z3.If(ne, S['q:%s:p%d' % (o, i + 1)], S['q:%s:p%d' % (o, i)])
                 S['q:%s:len' % o] = z3.If(ne, ln - 1, ln)
+            elif kind == 'q_peek':
+                ln = S['q:%s:len' % o]
+                ne = z3.UGT(ln, 0)
+                b.append(ev.res['nonempty'] == ne)
+                if ev.extra == 'front':
+                    kk, pp = S['q:%s:k0' % o], S['q:%s:p0' % o]
+                else:
+                    kk, pp = S['q:%s:k0' % o], S['q:%s:p0' % o]
+                    for i in range(1, cap):
+                        kk = z3.If(ln == i + 1, S['q:%s:k%d' % (o, i)], kk)
+                        pp = z3.If(ln == i + 1, S['q:%s:p%d' % (o, i)], pp)
+                b.append(z3.Implies(ne, z3.And(ev.res['kind'] == kk, ev.res['payload'] == pp)))
+            elif kind == 'q_push_front':
+                ln = S['q:%s:len' % o]
+                S['overflow'] = z3.Or(S['overflow'], ln == cap)
+                for i in range(cap - 1, 0, -1):
+                    S['q:%s:k%d' % (o, i)] = S['q:%s:k%d' % (o, i - 1)]
+                    S['q:%s:p%d' % (o, i)] = S['q:%s:p%d' % (o, i - 1)]
+                S['q:%s:k0' % o] = ev.args[0]
+                S['q:%s:p0' % o] = ev.args[1]
+                S['q:%s:len' % o] = z3.If(ln == cap, ln, ln + 1)
+            elif kind == 'q_pop_back':
+                ln = S['q:%s:len' % o]
+                ne = z3.UGT(ln, 0)
+                kk, pp = S['q:%s:k0' % o], S['q:%s:p0' % o]
+                for i in range(1, cap):
+                    kk = z3.If(ln == i + 1, S['q:%s:k%d' % (o, i)], kk)
+                    pp = z3.If(ln == i + 1, S['q:%s:p%d' % (o, i)], pp)
+                b.append(ev.res['nonempty'] == ne)
+                b.append(z3.Implies(ne, z3.And(ev.res['kind'] == kk, ev.res['payload'] == pp)))
+                S['q:%s:len' % o] = z3.If(ne, ln - 1, ln)
+            elif kind == 'q_clear':
+                S['q:%s:len' % o] = z3.BitVecVal(0, 8)
             elif kind == 'q_is_empty':
                 b.append(ev.res['empty'] == (S['q:%s:len' % o] == 0))
             elif kind == 'q_len':
